@@ -28,6 +28,11 @@ def remove_unused_self_cls(source: str) -> str:
         for node in core.walk(root, ast.Attribute(value=ast.Name))
         if node.value.id in class_names
     }
+    # In a class method, super() looks up on a class as well.
+    looked_up_on_class.update(
+        node.attr
+        for node in core.walk(root, ast.Attribute(value=ast.Call(func=ast.Name(id="super"))))
+    )
 
     for classdef in parsing.iter_classdefs(root):
         # Methods that the class body reads by name are handed to something, like property(getter)
